@@ -524,38 +524,7 @@ func checkC15(c *Ctx) {
 	// matching `a` come back in every batch.  Sibling rule of C08.regroup: the statement the cursor is added
 	// to has its lone-OR conditions regrouped into one AND unit first.
 	rcg := c.Rule("C15.cursor-group", "FindInBatches regroups lone-OR conditions before adding the batch cursor", 1)
-	{
-		fib := p.MethodDecl(pkgGorm, "DB", "FindInBatches")
-		c.Touch(fib)
-		info := fib.Pkg.TypesInfo
-		gtT := p.Named(pkgClause, "Gt")
-		clausesM := p.Method(p.Named(pkgGorm, "DB"), "Clauses")
-		var cursor *ast.CallExpr
-		for _, call := range callsIn(fib) {
-			if fn, _ := typeutil.Callee(info, call).(*types.Func); fn == clausesM {
-				if len(litsOfType(info, call, gtT, false)) > 0 {
-					cursor = call
-				}
-			}
-		}
-		if cursor == nil {
-			rcg.Bad(fib.Name(), "cursor", fib.Body.Pos(), "FindInBatches no longer adds a `primary key > last` cursor condition; rule lost its anchor")
-		} else {
-			store, hasAnd := findRegroup(p, fib)
-			okc := store != nil && hasAnd && regroupScansAll(fib, store)
-			if okc {
-				gs := p.Guards(fib, nil)
-				// the regroup happens before the cursor is first added and on the statement the cursor extends
-				okc = gs.Reaches(store.Pos(), func(n ast.Node) bool { return containsNode(n, cursor) })
-				if ix, ok := store.Lhs[0].(*ast.IndexExpr); ok {
-					if sel, ok := cursor.Fun.(*ast.SelectorExpr); ok {
-						okc = okc && strings.HasPrefix(canon(info, ix.X), canon(info, sel.X)+".")
-					}
-				}
-			}
-			rcg.Check(okc, fib.Name(), "cursor restricts the whole condition", cursor.Pos(), "lone-OR conditions regrouped (clause.And(all...)) on the cursor's statement first", "the batch cursor `pk > ?` is ANDed onto a WHERE clause that may contain a lone OR unit without regrouping it first: `a OR b AND pk > ?` returns the rows matching `a` in every batch (rows delivered repeatedly, FindInBatches may never terminate)")
-		}
-	}
+	checkCursorGroup(c, rcg)
 
 	// ---- C15.tick ----
 	rt := c.Rule("C15.tick", "RowsAffected reset before the destination switch; each rows.Scan under rows.Next() paired with one RowsAffected++", 5)
@@ -952,5 +921,40 @@ func checkReturningCursor(c *Ctx, rcur *Rule) {
 			rcur.Check(under, scan.Name(), "cursor advance", n.Pos(), "inside a loop/branch controlled by rows.Next()", "the record cursor RowsAffected advances outside the row loop: returned rows are no longer re-aligned per row with the in-memory records (records stored earlier in the same slice get another record's generated key, or valid input fails)")
 			return true
 		})
+	}
+}
+
+// checkCursorGroup: see C15.cursor-group (also instantiated as C02.cursor-group).
+func checkCursorGroup(c *Ctx, rcg *Rule) {
+	p := c.P
+	fib := p.MethodDecl(pkgGorm, "DB", "FindInBatches")
+	c.Touch(fib)
+	info := fib.Pkg.TypesInfo
+	gtT := p.Named(pkgClause, "Gt")
+	clausesM := p.Method(p.Named(pkgGorm, "DB"), "Clauses")
+	var cursor *ast.CallExpr
+	for _, call := range callsIn(fib) {
+		if fn, _ := typeutil.Callee(info, call).(*types.Func); fn == clausesM {
+			if len(litsOfType(info, call, gtT, false)) > 0 {
+				cursor = call
+			}
+		}
+	}
+	if cursor == nil {
+		rcg.Bad(fib.Name(), "cursor", fib.Body.Pos(), "FindInBatches no longer adds a `primary key > last` cursor condition; rule lost its anchor")
+	} else {
+		store, hasAnd := findRegroup(p, fib)
+		okc := store != nil && hasAnd && regroupScansAll(fib, store)
+		if okc {
+			gs := p.Guards(fib, nil)
+			// the regroup happens before the cursor is first added and on the statement the cursor extends
+			okc = gs.Reaches(store.Pos(), func(n ast.Node) bool { return containsNode(n, cursor) })
+			if ix, ok := store.Lhs[0].(*ast.IndexExpr); ok {
+				if sel, ok := cursor.Fun.(*ast.SelectorExpr); ok {
+					okc = okc && strings.HasPrefix(canon(info, ix.X), canon(info, sel.X)+".")
+				}
+			}
+		}
+		rcg.Check(okc, fib.Name(), "cursor restricts the whole condition", cursor.Pos(), "lone-OR conditions regrouped (clause.And(all...)) on the cursor's statement first", "the batch cursor `pk > ?` is ANDed onto a WHERE clause that may contain a lone OR unit without regrouping it first: `a OR b AND pk > ?` returns the rows matching `a` in every batch (rows delivered repeatedly, FindInBatches may never terminate)")
 	}
 }
